@@ -273,7 +273,8 @@ def run_c16(v):
         "the harness is built with debug assertions and overflow checks on (as under cargo test / cargo run); "
         "findings that only exist in such builds say so",
         "a request that does not return within the watchdog (10 s quick / 20 s thorough; typical requests take "
-        "< 50 ms) is a hang; after a class has been observed to hang its remaining combinations are skipped",
+        "< 50 ms) is a hang; once a class has been observed to hang or to take > 2 s its remaining combinations "
+        "are skipped (time budget, listed in coverage.hang_budget_skips)",
         "Outcome pins Ok only for a documented feature used alone on a plain request, Err where the README or "
         "property C11 says the request is refused; everything else is {Ok, Err}",
         "worker threads use the default 2 MiB stack of a spawned thread",
